@@ -13,8 +13,8 @@
                                                        -> [announce_secure] [client_choice] [client_session]
    - client.go:1478-1499              redirect handling with the scheme downgrade check
                                                        -> [redirect_step] [follow]
-   - client_format.go:233-262, server_session_format.go:237-266  readPacketRTP: remote-SSRC latch in
-                                      front of decryption   -> [filter_step] [filter_run]
+   - client_format.go:233-270, server_session_format.go:237-274  readPacketRTP: remote-SSRC check in
+                                      front of decryption, latch after it (fix e33be43)   -> [filter_step] [filter_run]
    The MIKEY message is an abstract record (fields of pkg/mikey's structs that the two conversion
    functions read or write); its byte-level marshalling is domain "mikey" (C09). *)
 From GVL Require Import NList Wire.
@@ -370,17 +370,21 @@ Definition redirect_step (cur_rtsps : bool) (target : scheme) : rres :=
   end.
 
 (* the schemes of all connections made while following a chain of redirect targets, and how it ended
-   (0 chain exhausted, 1 downgrade refused, 2 bad URL) *)
-Fixpoint follow (cur_rtsps : bool) (chain : list scheme) : list bool * N :=
+   (0 chain exhausted, 1 downgrade refused, 2 bad URL, 3 too many redirects: doDescribeInner refuses
+   the redirect when clientMaxRedirects have already been followed) *)
+Fixpoint follow_n (count : N) (cur_rtsps : bool) (chain : list scheme) : list bool * N :=
   match chain with
   | [] => ([cur_rtsps], 0)
   | t :: rest =>
+    if sec_max_redirects <=? count then ([cur_rtsps], 3) else
     match redirect_step cur_rtsps t with
     | RDowngrade => ([cur_rtsps], 1)
     | RBadURL => ([cur_rtsps], 2)
-    | RFollow b => let '(l, e) := follow b rest in (cur_rtsps :: l, e)
+    | RFollow b => let '(l, e) := follow_n (count + 1) b rest in (cur_rtsps :: l, e)
     end
   end.
+
+Definition follow (cur_rtsps : bool) (chain : list scheme) : list bool * N := follow_n 0 cur_rtsps chain.
 
 (* ------------------------------------------------------------------------------------------ *)
 (* 7. the remote-SSRC latch in front of decryption (clientFormat / serverSessionFormat)          *)
@@ -392,16 +396,33 @@ Inductive revent := EWrongSSRC | EDecodeError | EDelivered.
 
 (* one inbound RTP packet of a format: its header SSRC and whether decodeRTP succeeds (with an ideal
    cipher: the packet is genuine and its ROC is guessed right; without SRTP: always).
-   secure = (srtpInCtx != nil).  The latch is written BEFORE the packet is authenticated. *)
+   secure = (srtpInCtx != nil).
+   Code as of /repo e33be43 ("latch the remote SSRC only after a packet has been decoded"):
+     if filled && secure && ssrc != value  -> "wrong SSRC" decode error
+     decodeRTP fails                       -> decode error, latch untouched
+     otherwise: latch the SSRC if not yet latched, deliver. *)
 Definition filter_step (secure : bool) (l : latch) (ssrc : N) (auth_ok : bool) : latch * revent :=
-  if negb (l_filled l) then (mkLatch true ssrc, if auth_ok then EDelivered else EDecodeError)
-  else if secure && negb (l_value l =? ssrc) then (l, EWrongSSRC)
-  else (l, if auth_ok then EDelivered else EDecodeError).
+  if l_filled l && secure && negb (l_value l =? ssrc) then (l, EWrongSSRC)
+  else if auth_ok then ((if l_filled l then l else mkLatch true ssrc), EDelivered)
+  else (l, EDecodeError).
 
 Fixpoint filter_run (secure : bool) (l : latch) (pkts : list (N * bool)) : list revent :=
   match pkts with
   | [] => []
   | (ssrc, ok) :: t => let '(l', e) := filter_step secure l ssrc ok in e :: filter_run secure l' t
+  end.
+
+(* the code BEFORE e33be43 (pinned tree 55be630): the latch was written before the packet was
+   authenticated.  Kept only for the regression lemmas in Proofs.v; not used by [run]. *)
+Definition filter_step_old (secure : bool) (l : latch) (ssrc : N) (auth_ok : bool) : latch * revent :=
+  if negb (l_filled l) then (mkLatch true ssrc, if auth_ok then EDelivered else EDecodeError)
+  else if secure && negb (l_value l =? ssrc) then (l, EWrongSSRC)
+  else (l, if auth_ok then EDelivered else EDecodeError).
+
+Fixpoint filter_run_old (secure : bool) (l : latch) (pkts : list (N * bool)) : list revent :=
+  match pkts with
+  | [] => []
+  | (ssrc, ok) :: t => let '(l', e) := filter_step_old secure l ssrc ok in e :: filter_run_old secure l' t
   end.
 
 (* ------------------------------------------------------------------------------------------ *)
